@@ -109,3 +109,56 @@ func verifC02(maxChunks int, sizes []int) {
 func VH_C02_relay() { verifC02(1, []int{1, 3}) }
 
 func VH_C02_relay_T() { verifC02(2, []int{1, 3, 40}) }
+
+// C15: one status naming the real outcome for every way a connection can end after
+// authentication; the byte counters never exceed what crossed the sockets
+func VH_C15_outcomes() {
+	cl, specs, entries := verifMakeList(1, 1, false)
+	key := verifKey(specs[0].cipher, verifSecrets[specs[0].secret])
+	data := verifBytes("c", 3)
+	stream := verifClientStream(key, append([]byte{1, 93, 184, 216, 34, 0, 80}, data...))
+	verifAssume(!entries[0].SaltGenerator.IsServerSalt(stream[:key.SaltSize()]))
+	conn := &verifStreamConn{name: "client", remote: &net.TCPAddr{IP: net.IPv4(203, 0, 113, 5), Port: 50000}}
+	conn.reads = []verifSRead{{data: stream}}
+	target := &verifStreamConn{name: "target", remote: &net.TCPAddr{IP: net.IPv4(93, 184, 216, 34), Port: 80}}
+	reply := verifBytes("t", 2)
+	dialer := &verifDialer{conn: target}
+	want := "OK"
+	switch verifChoice("outcome", 7) {
+	case 0:
+		target.reads = []verifSRead{{data: reply}}
+	case 1:
+		dialer.dialErr = errVerifFault
+		want = "ERR_CONNECT"
+	case 2:
+		dialer.dialErr = onetNewConnectionError("ERR_ADDRESS_PRIVATE", "private", nil)
+		want = "ERR_ADDRESS_PRIVATE"
+	case 3:
+		dialer.dialErr = &net.OpError{Op: "dial", Err: onetNewConnectionError("ERR_ADDRESS_INVALID", "invalid", nil)}
+		want = "ERR_ADDRESS_INVALID"
+	case 4:
+		target.reads = []verifSRead{{data: reply}, {err: errVerifFault}}
+		want = "ERR_RELAY_TARGET"
+	case 5:
+		target.writeErr = errVerifFault
+		target.reads = []verifSRead{{data: reply}}
+		want = "ERR_RELAY_CLIENT"
+	case 6:
+		conn.writeErr = errVerifFault
+		target.reads = []verifSRead{{data: reply}}
+		want = "ERR_RELAY_TARGET"
+	}
+	h := NewStreamHandler(NewShadowsocksStreamAuthenticator(cl, nil, nil, nil), tcpReadTimeout)
+	h.SetTargetDialer(dialer)
+	m := &verifTCPMetrics{}
+	h.Handle(contextBackground(), conn, m)
+	verifAssert("C15.outcomes.closed-once-last", len(m.closed) == 1 && m.order[len(m.order)-1] == "closed")
+	verifAssert("C15.outcomes.status", len(m.closed) == 1 && m.closed[0] == want)
+	verifAssert("C15.outcomes.auth-once-before-close", len(m.authenticated) == 1 && m.order[0] == "auth" && len(m.probes) == 0)
+	verifAssert("C15.outcomes.client-proxy-bound", m.closedData[0] <= int64(conn.bytesRead))
+	verifAssert("C15.outcomes.proxy-target-bound", m.closedData[1] <= int64(len(target.written)))
+	verifAssert("C15.outcomes.target-proxy-bound", m.closedData[2] <= int64(target.bytesRead))
+	verifAssert("C15.outcomes.proxy-client-bound", m.closedData[3] <= int64(len(conn.written)))
+	verifAssert("C15.outcomes.conn-closed", conn.closed == 1)
+	verifReach("C15.outcomes.relay-target-error", want == "ERR_RELAY_TARGET")
+}
